@@ -49,6 +49,17 @@ func (els *EncryptedLeaseSet) Verify() error {
 // present, otherwise constructs a key from sigType + blindedPublicKey.
 func (els *EncryptedLeaseSet) signingPublicKeyForVerification() (types.SigningPublicKey, error) {
 	if els.HasOfflineKeys() && els.offlineSignature != nil {
+		// The transient key is only trusted if the offline signature block was itself
+		// signed by the blinded key; without this check anyone could attach a self-made
+		// transient key. Fails closed for key types whose offline signatures cannot be
+		// verified.
+		ok, err := els.offlineSignature.VerifySignature(els.blindedPublicKey)
+		if err != nil {
+			return nil, oops.Errorf("failed to verify offline signature: %w", err)
+		}
+		if !ok {
+			return nil, oops.Errorf("offline signature is not valid under the blinded signing key")
+		}
 		transientKeyBytes := els.offlineSignature.TransientPublicKey()
 		transientSigType := els.offlineSignature.TransientSigType()
 		spk, err := key_certificate.ConstructSigningPublicKeyByType(
